@@ -609,7 +609,7 @@ func c14CopySiteL2(ctx *core.Ctx, only string) {
 				}
 				srcCall, srcKeep, srcMode := -1, 0, "eof"
 				if r.Intn(4) > 0 {
-					srcCall = r.Intn(3)
+					srcCall = []int{0, 0, 0, 1, 2}[r.Intn(5)]
 					srcKeep = []int{0, 1, ln / 2, ln - 1, r.Intn(ln + 1)}[r.Intn(5)]
 					if srcKeep < 0 {
 						srcKeep = 0
